@@ -73,25 +73,27 @@ ORDER = sorted(CHECKS)
 SHARED = ("; shared passes: all call histories of length <=3 over the property's operation alphabet executed the way a caller that recycles memory would "
           "(arguments in re-used arena buffers, results overwritten, kept results re-read, arguments compared afterwards) against the reference, plus a salted pass with fresh identities; "
           "every ordered pair of operations run concurrently under the race detector (exhaustive over pairs, sampling over schedules), also as the first use of the package in a fresh process (cold start); "
-          "every exported method of the API's types called through reflection as one more history operation")
+          "every exported method of the API's types called through reflection as one more history operation; capacity pass (the same call with 1..260 other identities in between, then the first again)")
 ARCH386_QUICK = {"C04", "C05", "C10", "C11", "C12", "C14", "C15", "C16", "C19"}
 ARCH386_THOROUGH = {"C01", "C02", "C03", "C07", "C08", "C09", "C17", "C18"}
 EXTRA = {
+ "C18": "; encodings that look like p in the bytes a byte-wise comparison examines, as Gamma and as key; proof objects decoded from re-used buffers and kept; the first call of the process repeated after everything else",
+ "C01": "; R related to A (R = A, -A, 2A, 8A) with the S of either sign; the first call of the process repeated after everything else",
  "C02": "; extended keys restored by the caller from stored k||c material in three memory layouts, every alphabet index, stored bytes compared afterwards; children whose intermediate I_L starts with 00 or FF (found by scanning 8192 indices per parent with an own HMAC), derived privately and from the extended public key",
- "C04": "; every code point of the BMP (quick: every third above U+0800) and every other single byte inside the prefix with the checksum that is right for the raw bytes",
- "C05": "; every code point of the BMP (quick: every third above U+0800) as prefix character",
+ "C04": "; every code point of the BMP (quick: every third above U+0800) and every other single byte inside the prefix with the checksum that is right for the raw bytes; strings whose checksum is right for another final constant (Bech32m, 0, all ones, every single bit); valid strings with 0..3 data symbols through address.ParseBech32",
+ "C05": "; every code point of the BMP (quick: every third above U+0800) as prefix character; last six data symbols / prefix characters solved for so that the running checksum is 0, 1, 2, all ones, a single bit or the Bech32m constant after the data / after the expanded prefix; an invalid character at every data index followed by Encode of every length on one OS thread",
  "C08": "; the same pairs and derivations on keys assembled from the exported fields with every exported curve object denoting the curve; indices whose I_L starts with 00 or FF",
- "C11": "; a consumer that links only pkg/pow and the standard library; nine kinds of ending context x unattainable/easy target x 1 and 4 workers; nonce-encoding sweep following every worker for 1031 (thorough 262201) batches; Worker reuse sequences; worker counts none..1000",
- "C12": "; a consumer that links only pkg/pow/v2 and the standard library; nine kinds of ending context x unattainable/easy target x 1 and 4 workers; nonce-encoding sweep; Worker reuse sequences; worker counts none..1000",
- "C13": "; cold starts (first use of the package = an N-worker Mine in a fresh process under the race detector); low-target scenarios (every nonce qualifies) and contexts with a far deadline cancelled by their CancelFunc, under the scheduler and in the free-running pass; two calls on one Worker",
- "C14": "; roomy and exactly sized buffers (slack 0..64, source with and without bytes behind its length); the earliest fault decides the error class and the count",
+ "C11": "; a consumer that links only pkg/pow and the standard library; nine kinds of ending context x unattainable/easy target x 1 and 4 workers; nonce-encoding sweep following every worker for 1031 (thorough 262201) batches; Worker reuse sequences; worker counts none..1000; data sizes at and around multiples of 64 KiB and 1 MiB up to 16 MiB; Workers created while pow.Hash was another function",
+ "C12": "; a consumer that links only pkg/pow/v2 and the standard library; nine kinds of ending context x unattainable/easy target x 1 and 4 workers; nonce-encoding sweep; Worker reuse sequences; worker counts none..1000; data sizes at and around multiples of 1 MiB up to 16 MiB; the same data on the same Worker after a timed-out call with a higher target (pass-over oracle); message lengths that divide 2^64-1",
+ "C13": "; cold starts (first use of the package = an N-worker Mine in a fresh process under the race detector); low-target scenarios (every nonce qualifies) and contexts with a far deadline cancelled by their CancelFunc, under the scheduler and in the free-running pass; two calls on one Worker; length x target exactly 2^64-1 cancelled; another Worker mining with twice GOMAXPROCS goroutines while this call is cancelled",
+ "C14": "; roomy and exactly sized buffers (slack 0..64, source with and without bytes behind its length); the earliest fault decides the error class and the count; two invalid groups of every kind pairing at every pair of 40 positions, as trytes and as trits",
  "C16": "; the real polymod against the BIP-173 transcription on every single-symbol sequence of length <=100; all 2^25 (thorough 2^30) checksum tails through the real Decode for extra accepted constants",
- "C17": "; scalar 1 / n+1 and additions with the identity in the history pass (results overwritten by the caller, arguments and generator compared afterwards)",
- "C06": "; a behavioural probe (one squeezed block of all lanes on a clone) of the current instance after every history, so that state the state key does not see is not merged away; word-size generic permutation/sponge comparison in the GOARCH=386 and GOAMD64=v3 builds; re-entrancy pass also in the purego race build",
- "C07": "; for every crypto.Hash a message of its digest length (and 16..64 bytes) announced through every kind of opts value must be refused; Options with a context and hash 0 sign like Sign",
- "C09": "; a valid sentence starting with every word of both lists: print, parse (same sentence), seed (succeeds, equals the reference)",
- "C10": "; every byte value and 13 look-alike runes substituted and inserted at every position of 9 templates",
- "C15": "; every hash function package crypto knows and the binary links (18), counts 0..40",
+ "C17": "; scalar 1 / n+1 and additions with the identity in the history pass (results overwritten by the caller, arguments and generator compared afterwards); the endomorphism images lambda*P (same y, other x) for both roots of lambda^2+lambda+1 and the scalars lambda-1, lambda+1, lambda+2",
+ "C06": "; a behavioural probe (one squeezed block of all lanes on a clone) of the current instance after every history, so that state the state key does not see is not merged away; word-size generic permutation/sponge comparison in the GOARCH=386 and GOAMD64=v3 builds; re-entrancy pass also in the purego race build; ONE Absorb call with every block count 1..130 and ONE Squeeze call with 1..40 blocks against the one-lane reference, and every such input absorbed in another split",
+ "C07": "; for every crypto.Hash a message of its digest length (and 16..64 bytes) announced through every kind of opts value must be refused; Options with a context and hash 0 sign like Sign; the first call of the process repeated after everything else",
+ "C09": "; a valid sentence starting with every word of both lists: print, parse (same sentence), seed (succeeds, equals the reference); every sentence byte length that valid sentences of 12..24 words reach among 40000 candidates per word count, every passphrase length 0..300",
+ "C10": "; every byte value and 13 look-alike runes substituted and inserted at every position of 9 templates; every component length 1..1100 (zero padding); kept MarshalText results",
+ "C15": "; every hash function package crypto knows and the binary links (18), counts 0..40; 100/65/300-byte leaves that differ only behind a common prefix; trees of trees (a leaf whose MarshalBinary hashes a sub-list with the same Hasher) and struct copies of a used Hasher",
  "C19": "; addresses whose checksum is right for another final constant (Bech32m, ...), valid Bech32 strings without data, the 90-tryte checksummed form of a migration address",
  "C20": "; word-size generic permutation/sponge comparison in the GOARCH=386 and GOAMD64=v3 builds; re-entrancy pass also in the purego race build; public hash entered from fresh goroutines at every recursion depth 0..3000 (thorough 9000) x 4 word offsets",
 }
